@@ -554,6 +554,41 @@ def c08(ctx):
     ctx.negctl_replay(["client-replay"], first, wrong)
 
 
+# ---------------------------------------------------------------------------------------------
+# Transform: C18
+
+def c18(ctx):
+    ctx.rule = ("Transform.tla: (keys) every validated key variant (6 types x permitted purpose subsets x JWK / base58 "
+                "material: 130 single keys; two-key documents with a second key of another type), with / without "
+                "@base, method context, 0-2 services with further members and also-known-as URIs; expected "
+                "verification methods (qualified / relative id, controller, material form), the five relationship "
+                "lists in document order and the context list in order of first use; (ops) every operation list of "
+                "length <= MaxOps with (time, number) in (0..2)^2 and canonical reference in {1, 2}, published "
+                "(sorted, de-duplicated) and unpublished (sorted); (meta) presence / value of every metadata item for "
+                "all 1536 combinations of commitments, anchor origin form, flags, times, version, canonical / "
+                "equivalent id. TLC checks ExactlyOnce and SortedOps; the harness builds the ResolutionModel, calls "
+                "TransformDocument and compares the whole document / metadata; base58 / multibase conversions are "
+                "recomputed with the harness's own base58.")
+    ctx.assumptions = ["the order among operations with equal (time, number) is not asserted; when two operations of one "
+                       "canonical reference share a slot only sortedness, count and uniqueness are asserted",
+                       "created is reported for published states; updated needs a version id and a non-zero time "
+                       "(pinned behaviour, the statement says 'as given')"]
+    mo = 3 if ctx.tier == "quick" else 4
+    _, summ = ctx.tlc_pipe("MC_Transform.tla", "MC_Transform.cfg", ["transform-replay"], overrides={"MaxOps": mo},
+                           workers=8, timeout=3000, label="keys / operation lists <= %d / metadata" % mo)
+
+    def wrong(rec):
+        if rec["c"]["kind"] == "keys":
+            rec["expected"]["contexts"] = rec["expected"]["contexts"] + ["JsonWebKey2020", "Ed25519VerificationKey2020"]
+        elif rec["c"]["kind"] == "ops":
+            rec["expected"]["count"] += 1
+        else:
+            rec["expected"]["deactivated"] = not rec["expected"]["deactivated"]
+
+    ctx.negctl_replay(["transform-replay"], summ["_first_edge"], wrong)
+    ctx.exhaustive = True
+
+
 def replay(path):
     """re-execute exactly the case of a replay file against the current tree"""
     m = json.load(open(path))
@@ -626,5 +661,6 @@ CHECKS = {
     "C11": c11,
     "C13": c13,
     "C14": c14,
+    "C18": c18,
     "C12": c12,
 }
